@@ -404,7 +404,7 @@ func c06Program(p *prog, steps int) {
 			p.step("Set-odd", desc, true, func() { real.Set(args...) })
 		case op < 30: // Set with a non-string key at pair k: panics; any applied prefix of the pairs is accepted
 			k0, v0 := pickKey(), scalarVal(r)
-			bad := []any{1, 2.5, nil, true, []byte("k"), at.NewList(1, 2), at.NewObject("a", 1), time.Second, errors.New("k"), []string{"k"}, 'k', struct{}{}}[r.Intn(12)]
+			bad := []any{1, 2.5, nil, true, []byte("k"), at.NewList(1, 2), at.NewObject("a", 1), time.Second, errors.New("k"), []string{"k"}, 'k', struct{}{}, keyName(k0), keyName(""), keyText{k0}, &k0}[r.Intn(16)]
 			var args []any
 			pos := r.Intn(2)
 			if pos == 0 {
@@ -727,3 +727,11 @@ func selfC06(s *fw.SelfCheck) {
 	o.M[""] = model.Str("y")
 	s.Expect(h.CheckAll() != "", "object heap check misses a changed value")
 }
+
+// keyName is a string-like type of the caller's own: its values are not strings, Set panics on them as keys.
+type keyName string
+
+// keyText prints as a key but is not a string either.
+type keyText struct{ s string }
+
+func (k keyText) String() string { return k.s }
